@@ -56,6 +56,7 @@ single path), you may need to increase the recursion limit:
 from collections import defaultdict, deque
 from collections.abc import Callable, Iterable
 
+from solvor import _verif
 from solvor.rust import with_rust_backend
 from solvor.types import Result, Status
 
@@ -97,6 +98,8 @@ def strongly_connected_components[S](
         index_counter[0] += 1
         stack.append(v)
         on_stack.add(v)
+        if _verif.ENABLED:  # pragma: no cover
+            _verif.emit("scc_visit", v=v)
 
         for w in neighbors(v):
             if w not in node_set:
@@ -107,6 +110,9 @@ def strongly_connected_components[S](
             elif w in on_stack:
                 low_link[v] = min(low_link[v], index[w])
 
+        if _verif.ENABLED:  # pragma: no cover
+            _verif.emit("scc_finish", v=v, low=low_link[v])
+
         if low_link[v] == index[v]:
             component: list[S] = []
             while True:
@@ -116,6 +122,8 @@ def strongly_connected_components[S](
                 if w == v:
                     break
             components.append(component)
+            if _verif.ENABLED:  # pragma: no cover
+                _verif.emit("scc_pop", comp=list(component))
 
     for v in node_list:
         if v not in index:
